@@ -11,6 +11,9 @@ mod json;
 mod mon;
 mod mon_hist;
 mod mon_set;
+mod mon_stream;
+mod mon_warp;
+mod probe;
 mod mon_twin;
 mod rng;
 mod run;
@@ -30,6 +33,10 @@ fn monitors() -> Vec<Box<dyn Monitor>> {
         Box::new(mon_twin::Wrap),
         Box::new(mon_twin::Prec),
         Box::new(mon_set::Setters),
+        Box::new(mon_warp::Warp),
+        Box::new(mon_stream::Chunking),
+        Box::new(mon_stream::Acct),
+        Box::new(mon_stream::Poly),
     ]
 }
 
